@@ -17,6 +17,12 @@ code -> spec
   each with a same-seed twin - are validated event by event against the protocol actions (mode hmf).
 Python only concretises (integers -> numpy arrays) and abstracts (float -> nearby small rational / scaled integer,
 and the numeric relations named in ctx.assumptions).
+
+Named deviations (spec/LinSolve.tla Dev_*; passed as `finding` so that known_findings.json can list them):
+  D-C15-1  computechi2 raises for a one-dimensional amatrix (the M = 1 system given as a vector)
+  D-C15-2  pcomp gives NaN components when the analysed matrix is singular (round-off negative eigenvalue)
+  D-C15-3  pcomp(standardize=True).derived = data . components + (x - mean)
+Every replay file re-executes the real code: bin/check C15 --replay replays/C15/<hash>.json
 """
 import json
 import os
@@ -438,11 +444,14 @@ def make_data(rng, N, M, R, nonneg, mask):
     return S, iv
 
 
-def stepped_trace(ops, nn, epsilon, niter, S, iv, K, rng):
-    """Drive the public methods of a real HMF object in the order `ops` (a behaviour of the protocol machine)."""
+def stepped_trace(info):
+    """Drive the public methods of a real HMF object in the order info['ops'] (a behaviour of the protocol machine)."""
     from pydl.pydlspec2d.spec1d import HMF
+    rng = np.random.RandomState(info['dseed'])
+    nn, K, ops = info['nn'], info['K'], info['ops']
+    S, iv = make_data(rng, info['N'], info['M'], info['R'], nn, 0.1)
     S0, iv0 = S.copy(), iv.copy()
-    h = HMF(S, iv, K=K, n_iter=niter, nonnegative=nn, epsilon=epsilon)
+    h = HMF(S, iv, K=K, n_iter=info['niter'], nonnegative=nn, epsilon=info['epsilon'])
     m = Meter(h)
     N, M = S.shape
     if nn:
@@ -485,7 +494,8 @@ def stepped_trace(ops, nn, epsilon, niter, S, iv, K, rng):
 
 
 def iterate_trace(S, iv, K, niter, seed, nn, epsilon, preseed):
-    """A full iterate() run of the real code, recorded through wrapped methods.  Returns (events, a, g, exc)."""
+    """A full solve() / iterate() run of the real code, recorded through wrapped methods.
+    Returns (events, a, g, exc)."""
     from pydl.pydlspec2d.spec1d import HMF
     S0, iv0 = S.copy(), iv.copy()
     np.random.seed(preseed)                      # the twin runs start from different global states
@@ -537,10 +547,13 @@ def iterate_trace(S, iv, K, niter, seed, nn, epsilon, preseed):
     try:
         with warnings.catch_warnings():
             warnings.simplefilter('ignore')
-            a, g = h.iterate()
+            out = h.solve()                      # solve() runs iterate() and returns {'acoeff': a, 'flux': g}
+            a, g = np.asarray(out['acoeff']), np.asarray(out['flux'])
     except Exception as ex:
         return ev, None, None, '%s: %s' % (type(ex).__name__, str(ex)[:100])
-    flush()
+    if pend['model'] is not None:                # the last normalisation is judged on the RETURNED factors
+        ev.append(event('norm', dmodel=m.dmodel(pend['model'], a, g), rms=m.rms(g), neg=isneg(a, g)))
+        pend['model'] = None
     ev.append(event('done', neg=isneg(a, g), same=True,
                     untouched=bool(np.array_equal(S, S0) and np.array_equal(iv, iv0))))
     return ev, np.array(a), np.array(g), None
@@ -561,58 +574,45 @@ def validate_traces(ctx, traces, label):
     return {t - 1: far[t] - 1 for t in far if far[t] != len(traces[t - 1]['events']) + 1}
 
 
-def hmf_traces(ctx, rep, behaviours):
-    quiet_pydl()
-    rng = np.random.RandomState(ctx.seed % 2**31)
-    traces, info = [], []
-    # ---- stepped through the public methods, in the order of every complete protocol behaviour ----
-    shapes = [(12, 24, 2)] if ctx.quick else [(12, 24, 2), (20, 40, 3), (16, 30, 2)]
-    for (nn, eps, ops) in sorted(behaviours):
-        for (N, M, R) in shapes:
-            for K in ((1, 3) if ctx.quick else (1, 2, 3, 4)):
-                S, iv = make_data(rng, N, M, R, nn, 0.1)
-                epsilon = 0.1 if eps else (None if (K + N) % 2 else 0)
-                ev = stepped_trace(list(ops), nn, epsilon, 2, S, iv, K, rng)
-                traces.append({'nn': nn, 'eps': eps, 'niter': 2, 'twin': 0, 'events': ev})
-                info.append({'how': 'stepped', 'N': N, 'M': M, 'K': K, 'nn': nn, 'epsilon': epsilon, 'ops': list(ops)})
-    # ---- full iterate() runs, each with a same-seed twin ----
-    runs = []
-    for nn in (False, True):
-        for epsilon in (None, 0, 0.1):
-            for K in ((2, 4) if ctx.quick else (1, 2, 3, 4)):
-                for rep_i in range(1 if ctx.quick else 3):
-                    runs.append((nn, epsilon, K, rep_i))
-    for (nn, epsilon, K, rep_i) in runs:
-        N, M = (14, 28) if ctx.quick else [(14, 28), (20, 40), (24, 36)][rep_i]
-        niter = 2 if ctx.quick else 3
-        S, iv = make_data(rng, N, M, 2, nn, 0.1)
-        seed = int(rng.randint(1, 10**6))
-        first = None
-        for twin in (0, 1):
-            Sx, ivx = S.copy(), iv.copy()
-            ev, a, g, exc = iterate_trace(Sx, ivx, K, niter, seed, nn, epsilon, preseed=1000 + 77 * twin)
-            meta = {'how': 'iterate', 'N': N, 'M': M, 'K': K, 'nn': nn, 'epsilon': epsilon, 'seed': seed, 'niter': niter,
-                    'exc': exc, 'data_seed': None}
-            if exc is None:
-                if twin == 0:
-                    first = (a, g)
-                else:
-                    same = first is not None and np.array_equal(first[0], a) and np.array_equal(first[1], g)
-                    ev[-1]['same'] = bool(same)
-            traces.append({'nn': nn, 'eps': 1 if (epsilon is not None and epsilon > 0) else 0, 'niter': niter,
-                           'twin': (len(traces) if twin == 1 else 0), 'events': ev})     # 1-based index of the first run
-            info.append(meta)
-    bad = validate_traces(ctx, traces, 'Trace_LinSolve[hmf %d traces]' % len(traces))
+def eps_flag(epsilon):
+    return 1 if (epsilon is not None and epsilon > 0) else 0
+
+
+def build_traces(info, base):
+    """The trace(s) of one recorded HMF run: one for a stepped run, two (same-seed twins) for solve()/iterate().
+    `base` = number of traces already in the batch (twin indices are 1-based positions in the batch)."""
+    if info['how'] == 'stepped':
+        ev = stepped_trace(info)
+        return [{'nn': info['nn'], 'eps': eps_flag(info['epsilon']), 'niter': info['niter'], 'twin': 0, 'events': ev}], [None]
+    rng = np.random.RandomState(info['dseed'])
+    S, iv = make_data(rng, info['N'], info['M'], 2, info['nn'], 0.1)
+    out, excs, first = [], [], None
+    for twin in (0, 1):
+        ev, a, g, exc = iterate_trace(S.copy(), iv.copy(), info['K'], info['niter'], info['seed'], info['nn'],
+                                      info['epsilon'], preseed=1000 + 77 * twin)
+        if exc is None:
+            if twin == 0:
+                first = (a, g)
+            else:
+                ev[-1]['same'] = bool(first is not None and np.array_equal(first[0], a) and np.array_equal(first[1], g))
+        out.append({'nn': info['nn'], 'eps': eps_flag(info['epsilon']), 'niter': info['niter'],
+                    'twin': (base + 1 if twin == 1 else 0), 'events': ev})
+        excs.append(exc)
+    return out, excs
+
+
+def judge_traces(ctx, rep, traces, info, excs, label):
+    bad = validate_traces(ctx, traces, label)
     for t, tr in enumerate(traces):
         ctx.validated()
         ctx.evaluated(len(tr['events']), 'hmf-events-' + info[t]['how'])
-        ctx.nontriv(('hmf', t, info[t]['K'], info[t]['nn'], str(info[t]['epsilon'])))
+        ctx.nontriv(('hmf', info[t]['dseed'], t, info[t]['K'], info[t]['nn'], str(info[t]['epsilon'])))
         k = bad.get(t)
-        exc = info[t].get('exc')
+        exc = excs[t]
         if k is None and exc is None:
             continue
         if exc is not None and (k is None or k >= len(tr['events'])):
-            what = 'HMF.iterate() raised %s' % exc
+            what = 'HMF.solve() raised %s' % exc
             cls = 'hmf-exception'
         else:
             e = tr['events'][k] if k < len(tr['events']) else {'op': '(end)'}
@@ -621,8 +621,38 @@ def hmf_traces(ctx, rep, behaviours):
             cls = 'hmf-' + str(e.get('op'))
         rep(cls, {'what': 'HMF run (%s) %s' % (info[t], what), 'kind': 'hmf', 'info': info[t], 'event': k,
                   'events': tr['events'][:k + 1][-6:]})
-    ctx.sample({'hmf_trace': info[0], 'events_head': traces[0]['events'][:3]})
-    ctx.sample({'hmf_trace': info[-1], 'n_events': len(traces[-1]['events']), 'last_event': traces[-1]['events'][-1]})
+
+
+def hmf_traces(ctx, rep, behaviours):
+    quiet_pydl()
+    rng = random.Random(ctx.seed + 15)
+    traces, infos, excs = [], [], []
+
+    def add(info):
+        trs, ex = build_traces(info, len(traces))
+        for tr, e in zip(trs, ex):
+            traces.append(tr)
+            infos.append(info)
+            excs.append(e)
+    # ---- stepped through the public methods, in the order of every complete protocol behaviour ----
+    shapes = [(12, 24, 2)] if ctx.quick else [(12, 24, 2), (20, 40, 3), (16, 30, 2)]
+    for (nn, eps, ops) in sorted(behaviours):
+        for (N, M, R) in shapes:
+            for K in ((1, 3) if ctx.quick else (1, 2, 3, 4)):
+                add({'how': 'stepped', 'N': N, 'M': M, 'R': R, 'K': K, 'nn': nn, 'niter': 2,
+                     'epsilon': 0.1 if eps else (None if (K + N) % 2 else 0), 'ops': list(ops),
+                     'dseed': rng.randrange(2**31)})
+    # ---- full solve() runs, each with a same-seed twin ----
+    for nn in (False, True):
+        for epsilon in (None, 0, 0.1):
+            for K in ((2, 4) if ctx.quick else (1, 2, 3, 4)):
+                for rep_i in range(1 if ctx.quick else 3):
+                    N, M = (14, 28) if ctx.quick else [(14, 28), (20, 40), (24, 36)][rep_i]
+                    add({'how': 'solve', 'N': N, 'M': M, 'K': K, 'nn': nn, 'epsilon': epsilon,
+                         'seed': rng.randrange(1, 10**6), 'niter': 2 if ctx.quick else 3, 'dseed': rng.randrange(2**31)})
+    judge_traces(ctx, rep, traces, infos, excs, 'Trace_LinSolve[hmf %d traces]' % len(traces))
+    ctx.sample({'hmf_trace': infos[0], 'events_head': traces[0]['events'][:3]})
+    ctx.sample({'hmf_trace': infos[-1], 'n_events': len(traces[-1]['events']), 'last_event': traces[-1]['events'][-1]})
     return len(traces)
 
 
@@ -652,8 +682,12 @@ def record_wls(rng):
     b = [rng.randint(-bv, bv) for _ in range(N)]
     s = [rng.choice([0] + list(range(1, sv + 1)) * 2) for _ in range(N)]
     conv = rng.choice(['2d', '2d', 'int', '1d'] if M == 1 else ['2d', '2d', 'int'])
-    obs = run_chi2(A, b, s, conv, attr_order(rng))
-    rec = {'kind': 'wls', 'A': A, 'b': b, 's': s, 'conv': conv}
+    return wls_record(A, b, s, conv, attr_order(rng))
+
+
+def wls_record(A, b, s, conv, order):
+    obs = run_chi2(A, b, s, conv, order)
+    rec = {'kind': 'wls', 'A': A, 'b': b, 's': s, 'conv': conv, 'order': order}
     if obs['err']:
         rec['ret'] = {'err': True, 'exact': False, 'acoeff': [], 'yfit': [], 'chi2': [0, 1], 'dof': 0, 'covar': [], 'var': []}
         rec['exc'] = obs['exc']
@@ -690,6 +724,10 @@ def record_pcomp(rng):
         x = [[rng.randint(-xv, xv) for _ in range(nv)] for _ in range(no)]
         if all(len({row[j] for row in x}) > 1 for j in range(nv)):
             break
+    return pcomp_record(x, std, cov)
+
+
+def pcomp_record(x, std, cov):
     r = run_pcomp(x, std, cov)
     rec = {'kind': 'pcomp', 'x': x, 'std': std, 'cov': cov, 'err': r['err'], 'exc': r['exc'], 'nan': bool(r.get('nan', False)),
            'ev': [], 'coef': [], 'p': [], 'psq': [], 'var': [], 'der': [], 'sd0': [], 'sd1': [], 'cs0': [], 'cs1': []}
@@ -711,19 +749,21 @@ def record_pcomp(rng):
     return rec
 
 
-def record_pca(rng, nrng, quick):
+def record_pca(rng, quick):
+    N = 10 if quick else rng.choice([10, 16, 20])
+    return pca_record(N, rng.choice([0, 1]), rng.choice([1, 3]), rng.choice([1, 2, 3]), rng.randrange(2**31))
+
+
+def pca_record(N, maxiter, niter, nkeep, dseed):
     from pydl.pydlspec2d.spec1d import pca_solve
-    N = 10 if quick else int(nrng.choice([10, 16, 20]))
+    nrng = np.random.RandomState(dseed)
     M = 2 * N
     S, iv = make_data(nrng, N, M, 2, False, 0.12)
     for i in range(N):
         if not iv[i].any():
             iv[i, 0] = 400.0
-    maxiter = rng.choice([0, 1])
-    niter = rng.choice([1, 3])
-    nkeep = rng.choice([1, 2, 3])
     rec = {'kind': 'pca', 'maxiter': maxiter, 'niter': niter, 'nkeep': nkeep, 'err': False, 'exc': '', 'proj': [], 'ev': [],
-           'usemask': [], 'outmask': [], 'inmask': [[int(v != 0) for v in row] for row in iv], 'shape': [N, M]}
+           'usemask': [], 'outmask': [], 'inmask': [[int(v != 0) for v in row] for row in iv], 'shape': [N, M], 'dseed': dseed}
     try:
         with warnings.catch_warnings():
             warnings.simplefilter('ignore')
@@ -752,10 +792,9 @@ def record_pca(rng, nrng, quick):
 def recorded_calls(ctx, rep):
     quiet_pydl()
     rng = random.Random(ctx.seed)
-    nrng = np.random.RandomState((ctx.seed + 1) % 2**31)
     recs = [record_wls(rng) for _ in range(600 if ctx.quick else 6000)]
     recs += [record_pcomp(rng) for _ in range(400 if ctx.quick else 4000)]
-    recs += [record_pca(rng, nrng, ctx.quick) for _ in range(12 if ctx.quick else 80)]
+    recs += [record_pca(rng, ctx.quick) for _ in range(12 if ctx.quick else 80)]
     judged = core.validate_records(ctx, 'Trace_LinSolve', recs, chunk=2500, extra_env={'VERIF_MODE': 'recs'})
     nskip = 0
     for k, rec in enumerate(recs):
@@ -771,7 +810,7 @@ def recorded_calls(ctx, rep):
             continue
         why, _, dev = judged[k].partition('|')
         brief = {x: rec[x] for x in rec if x in ('A', 'b', 's', 'conv', 'x', 'std', 'cov', 'maxiter', 'niter', 'nkeep',
-                                                  'shape', 'exc', 'nan')}
+                                                  'shape', 'exc', 'nan', 'dseed')}
         rep('recorded-%s-%s' % (rec['kind'], why.split()[0]),
             {'what': 'recorded %s call rejected by Trace_LinSolve (%s): %s' % (rec['kind'], why, brief),
              'kind': 'record', 'record': rec}, finding=dev or None)
@@ -864,16 +903,22 @@ def replay(ctx, case):
         if not ok:
             rep('hmfx', case)
     elif kind == 'record':
-        rec = case['record']
-        if rec['kind'] == 'wls':
-            obs = run_chi2(rec['A'], rec['b'], rec['s'], rec['conv'], ATTRS)
-            print('replayed recorded computechi2:', obs)
-        elif rec['kind'] == 'pcomp':
-            print('replayed recorded pcomp:', run_pcomp(rec['x'], rec['std'], rec['cov']))
+        old = case['record']
+        if old['kind'] == 'wls':
+            rec = wls_record(old['A'], old['b'], old['s'], old['conv'], old.get('order', ATTRS))
+        elif old['kind'] == 'pcomp':
+            rec = pcomp_record(old['x'], old['std'], old['cov'])
+        else:
+            rec = pca_record(old['shape'][0], old['maxiter'], old['niter'], old['nkeep'], old['dseed'])
         judged = core.validate_records(ctx, 'Trace_LinSolve', [rec], extra_env={'VERIF_MODE': 'recs'})
-        print('Trace_LinSolve verdict on the stored record:', judged.get(0, 'accepted'))
+        print('re-recorded %s call: %s\nTrace_LinSolve verdict: %s' % (
+            rec['kind'], {x: rec[x] for x in list(rec)[:8]}, judged.get(0, 'accepted')))
         if 0 in judged:
-            rep('record', case)
+            rep('record', dict(case, record=rec))
+    elif kind == 'hmf':
+        info = case['info']
+        traces, excs = build_traces(info, 0)
+        print('re-ran HMF (%s): %d trace(s)' % (info, len(traces)))
+        judge_traces(ctx, rep, traces, [info] * len(traces), excs, 'Trace_LinSolve[replay]')
     else:
-        print('HMF traces depend on the run\'s random data; re-run bin/check C15 (same VERIF_SEED) to reproduce:', case.get('what'))
-        rep('hmf', case)
+        raise core.MachineryError('replay file of unknown kind %r' % kind)
